@@ -35,6 +35,7 @@ class World:
         self.loop = vloop.VLoop().install()
         ash.time.monotonic = self.loop.time
         self.ncp = ncpfull.Ncp(ncp_version, **kw)
+        self.ncp.defer = lambda d, fn: self.loop.call_later(d, lambda: (fn(), self.pump()))
         self.wire_log = []
         self.closed = False
         self.protocol = None
